@@ -133,6 +133,13 @@ def run_check(prop, tier, seed, replay=None):
             t.generate(bdir)
         except nir2coq_unsupported() as e:
             raise HarnessFault(f"translator cannot express target {t.name}: {e}")
+        except Exception as e:
+            # /repo's module can no longer be built/elaborated in a configuration the property is tied at: the theorems
+            # cannot be re-stated for this tree (on the unchanged tree every target elaborates, or the check would be broken)
+            raise Violation(dict(property=pid, target=t.name,
+                                 reason=f"target {t.name}: /repo's module can no longer be elaborated in this configuration "
+                                        f"({type(e).__name__}: {str(e)[:500]}); the tie theorems cannot be stated for this tree"),
+                            nofail=True)
     for t, (ok, out, secs) in zip(targets, pool.map(lambda t: core.coqc(t.gen_path, extra_dirs=[(bdir, "Run")]), targets)):
         if not ok:
             raise HarnessFault(f"generated {t.gen_path} does not compile:\n{out[-2000:]}")
